@@ -42,6 +42,24 @@ CHECKS = {
   design_ref="DESIGN.md §4 C13",
   note="Trusted: Lean kernel + standard axioms; hand model tied by differential correspondence; damage-per-log abstract (its formula is C12); known finding F12 (window length <= 0 raises).",
   technique="Lean 4 proof (loop invariant of the two-pointer scan, sum rearrangements) + differential correspondence"),
+ "C05": dict(
+  category="proof",
+  text="Lean 4 theorems over a model of play/_get_event_callbacks with an arbitrary router and store: relay_exactly_once (the actions dispatched while handling the next action are exactly emitted(E) reversed, the action, done(E) for the events E of the previous action, by position, so each event is offered once before and once after), relay_never_again, relay_count, relay_survives_checkpoint, signature_shape. Tied to the code by a catch-all probe dispatcher installed through EngineBuilder.add_dispatcher that records every dispatched action on all jobs, with checkpoint/restore injected between actions.",
+  design_ref="DESIGN.md §4 C05",
+  note="Trusted: Lean kernel + standard axioms; hand model of play tied by the probe recording; store-cell law for previous_callbacks.",
+  technique="Lean 4 proof (list algebra on the action queue) + probe-based correspondence"),
+ "C06": dict(
+  category="proof",
+  text="Lean 4 theorems: play_clock (a play advances the clock by exactly the elapse time of its own action; relayed callbacks never do), per_command (ELAPSE t: +t; CAST: + first positive delay of its use, 0 if none; RESOLVE: + pending delay of the named skill; USE/KEYDOWNSTOP/debug: +0), clock_is_sum (every recorded clock is the previous one plus the elapse time of the action; the shown clock is the sum of all elapse times), clock_monotone, firstDelay_nonneg — for every router satisfying hRouter (only the timer writes the clock), which is observed on every router call of real runs of all jobs, together with the per-command deltas and the times carried by 'elapsed' notifications.",
+  design_ref="DESIGN.md §4 C06",
+  note="Trusted: Lean kernel + standard axioms; hand model tied by C01/C03 replays + router-call observation; hRouter hypothesis (observed, plus static check of bound addresses); on-grid float addition exact.",
+  technique="Lean 4 proof (invariant over commands) + router-call observation"),
+ "C17": dict(
+  category="proof",
+  text="Lean 4 theorems over a star-force model whose tables, star caps, gear type codes and is_* predicates are regenerated from starforce_configuration.py/starforce.py/gear_type.py on every run: every lookup inside the cap is defined and non-negative (decide +kernel over the generated tables), star force is non-negative and non-decreasing in every field for EVERY well-formed gear meta, equals the running sum of per-star increments computed on the gear as enhanced so far, stars beyond the cap are refused; blueprint_additive/order_irrelevant/defined_iff_within_cap for gear blueprints over the generated Stat monoid. Compared with the real code on all shipped gears x stars 0..cap+1 (thorough) and random blueprints; non-mutation of blueprint/base gear observed by snapshot.",
+  design_ref="DESIGN.md §4 C17",
+  note="Trusted: Lean kernel + standard axioms; py2lean table/predicate extraction (self-checked against live module objects); hand model of providers tied by exhaustive correspondence; part contributions of spell traces/bonus are inputs of the blueprint model.",
+  technique="Lean 4 proof over generated tables (decide +kernel lifted) + exhaustive differential correspondence"),
 }
 
 NOT_YET = "check not built yet in this round (work in progress; see DESIGN.md §6 build order)"
